@@ -22,7 +22,10 @@ MANIFEST = {
             "renders the object: Bip32PathError; TypeError 'unhashable' while the getters were lru_cached); the model honours "
             "them, the divergence is the finding. BIP-32 child derivation, P2PKH/P2WPKH "
             "encoders, Solana address decoding and the ed25519 on-curve test are oracles (reference implementations in "
-            "the harness). Brainwallet theorems are definitional.",
+            "the harness). Brainwallet theorems are definitional. LINKED: the *_concrete theorems instantiate the address encoders "
+            "(P2PKH = Base58Check over hash160, P2WPKH = the SegWit model of C10), SolAddrDecoder (Base58 + length + key test) and "
+            "UTF-8 with the concrete models; parameters looked up in the coin table are regenerated (Gen/LinkConsts.v); the "
+            "link.* entries run them inside the extracted model.",
     "technique": "Coq proof (radix-10 digit lemmas, group-law rewriting, induction over the bump search) + generated-constant "
                  "obligations (f-string shapes by AST) + extracted-model differential run + formula recomputation",
     "ref": "7/C20",
@@ -492,9 +495,160 @@ def gen_spl(ctx):
         ctx.run("spl_find_pda", [seeds, rng.choice([ATOKEN, TOKEN, sol_addr(rng)])], "find-pda")
 
 
+# ------------------------------------------------------------------ linked models (Extract/Api_link.v)
+# Electrum addresses with P2PKH (Base58Check) / P2WPKH (SegWit Bech32) computed INSIDE the model, the SPL functions with
+# the Solana address decoder and Base58 inside the model, the brainwallet with UTF-8 inside the model: the theorems
+# *_concrete of Props/C20.v are about these functions; the p2pkh / p2wpkh / sol_decode / utf8 oracles are not asked.
+
+def model_v2_addr_c(m, a):
+    wtype, seed, pubonly, c, i = a
+    o = ref.bip32_master(seed)
+    if pubonly:
+        o = ref.bip32_public_only(o)
+    return m.call("link.electrum_v2_addr_c", wtype, o, _idx_model(c), _idx_model(i))
+
+
+def impl_v2_addr_decode(a):
+    wtype, s = a
+    from bip_utils import P2PKHAddrDecoder, P2WPKHAddrDecoder, CoinsConf
+    if wtype == 0:
+        return P2PKHAddrDecoder.DecodeAddr(s, net_ver=CoinsConf.BitcoinMainNet.ParamByKey("p2pkh_net_ver"))
+    return P2WPKHAddrDecoder.DecodeAddr(s, hrp=CoinsConf.BitcoinMainNet.ParamByKey("p2wpkh_hrp"))
+
+
+def direct_v2_addr_rt(a):
+    """the address decodes, with the library's own decoder, to the hash160 of the compressed child key"""
+    wtype, seed, pubonly, c, i = a
+    try:
+        s = impl_v2([wtype, 2, seed, pubonly, c, i])
+        pub = impl_v2([wtype, 1, seed, pubonly, c, i])
+    except Exception:  # noqa
+        return None
+    got = impl_v2_addr_decode([wtype, s])
+    return None if got == ref.hash160(pub) else "address decodes to %s, not to hash160 of the child key" % got.hex()
+
+
+def model_bw_c(m, a):
+    cls, pw, algo = a
+    opt = lambda v: [] if v is None else [v]      # noqa
+    if algo[0] < 2:
+        desc = [algo[0]]
+    elif algo[0] == 2:
+        desc = [2, algo[1] or b"", opt(algo[2])]
+    else:
+        desc = [3, algo[1] or b"", opt(algo[2]), opt(algo[3]), opt(algo[4])]
+    return m.call("link.brainwallet_c", cls, pw, *desc)
+
+
+def impl_sol_decode(a):
+    from bip_utils import SolAddrDecoder
+    return SolAddrDecoder.DecodeAddr(a[0])
+
+
+def direct_pda_not_address(a):
+    """Props/C20.v pda_is_not_a_sol_address on the implementation: FindPda's result is refused by SolAddrDecoder"""
+    seeds, prog = a
+    try:
+        got = SplToken.FindPda(seeds, prog)
+    except Exception:  # noqa
+        return None
+    try:
+        impl_sol_decode([got])
+    except ValueError:
+        return None
+    return "the PDA %s is accepted by SolAddrDecoder" % got
+
+
+FUNCS.update({
+    "electrum_v1_addr_c": Func(model=_mz("link.electrum_v1_addr_c", (2, 3)), impl=impl_v1_addr, direct=direct_v1("addr")),
+    "electrum_v2_addr_c": Func(model=model_v2_addr_c, impl=lambda a: impl_v2([a[0], 2] + list(a[1:])), direct=direct_v2_addr_rt),
+    "electrum_v2_addr_decode_c": Func(model=lambda m, a: m.call("link.electrum_v2_addr_decode_c", a[0], a[1]),
+                                      impl=impl_v2_addr_decode),
+    "spl_sol_decode_c": Func(model=lambda m, a: m.call("link.spl_sol_decode_c", a[0]), impl=impl_sol_decode),
+    "spl_find_pda_c": Func(model=lambda m, a: m.call("link.spl_find_pda_c", a[0], a[1]),
+                           impl=lambda a: SplToken.FindPda(a[0], a[1]), direct=direct_pda_not_address),
+    "spl_get_ata_c": Func(model=lambda m, a: m.call("link.spl_get_ata_c", a[0], a[1]),
+                          impl=lambda a: SplToken.GetAssociatedTokenAddress(a[0], a[1])),
+    "spl_get_ata_prog_c": Func(model=lambda m, a: m.call("link.spl_get_ata_prog_c", a[0], a[1], a[2]),
+                               impl=lambda a: SplToken.GetAssociatedTokenAddressWithProgramId(a[0], a[1], a[2])),
+    "brainwallet_c": Func(model=model_bw_c, impl=impl_bw),
+})
+
+
+def gen_link(ctx):
+    rng = ctx.rng
+    # Electrum v1
+    for mk in [(1).to_bytes(32, "big"), rb(rng, 32)]:
+        pub = K1.ser_c(K1.mul(int.from_bytes(mk, "big"), K1.G))
+        for _ in range(ctx.n(7, 60)):
+            c, i = rng.choice(idx_values(rng)), rng.choice(idx_values(rng))
+            ctx.run("electrum_v1_addr_c", [0, mk, c, i], "link")
+            ctx.run("electrum_v1_addr_c", [1, pub, c, i], "link-public-only")
+        ctx.run("electrum_v1_addr_c", [0, mk, -1, 0], "link-out-of-range")
+    # Electrum v2: addresses, and the library's decoders on them and on damaged ones
+    addrs = []
+    for seed in [bytes(range(16)), rb(rng, 32)]:
+        for _ in range(ctx.n(9, 80)):
+            c, i = rng.choice(idx_values(rng)), rng.choice(idx_values(rng))
+            for wtype in (0, 1):
+                r = ctx.run("electrum_v2_addr_c", [wtype, seed, False, [0, c], [0, i]], "link")
+                if r[1] and r[1][0] == "ok":
+                    addrs.append((wtype, r[1][1]))
+            ctx.run("electrum_v2_addr_c", [0, seed, True, [0, c], [0, i]], "link-public-only")
+        ctx.run("electrum_v2_addr_c", [1, seed, True, [0, 0], [0, 0]], "link-public-only")
+        ctx.run("electrum_v2_addr_c", [rng.randrange(2), seed, False, [0, 2**32], [0, 0]], "link-out-of-range")
+    for wtype, s in addrs:
+        ctx.run("electrum_v2_addr_decode_c", [wtype, s], "link-valid")
+        ctx.run("electrum_v2_addr_decode_c", [1 - wtype, s], "link-other-kind")
+        t = list(s)
+        k = rng.randrange(4)
+        if k == 0:
+            t[rng.randrange(len(t))] = rng.choice(ref.B58)
+        elif k == 1:
+            t = t[:rng.randrange(1, len(t))]
+        elif k == 2:
+            t = list(s.upper())
+        else:
+            t[rng.randrange(len(t))] = rng.choice("qpzry9x8gf2tvdw0s3jn54khce6mua7l")
+        ctx.run("electrum_v2_addr_decode_c", [wtype, "".join(t)], "link-mutated")
+    # SPL token
+    wallets = [sol_addr(rng) for _ in range(8)]
+    mints = [sol_addr(rng) for _ in range(8)] + ["EPjFWdd5AufqSSqeM2qN1xzybapC8G4wEGGkZwyTDt1v", "So11111111111111111111111111111111111111112"]
+    bad = [off_curve_addr(rng), "", "0OIl", wallets[0][:-1], wallets[0] + "1", _b58(rb(rng, 31)), _b58(rb(rng, 33)), "1" * 32,
+           "1" + wallets[1]]
+    for s in wallets + mints + bad + [ATOKEN, TOKEN]:
+        ctx.run("spl_sol_decode_c", [s], "link", trivial=(s == ""))
+    pdas = []
+    for _ in range(ctx.n(60, 1500)):
+        ns = rng.choice([0, 1, 2, 3, 3, 4, 15, 16, 17])
+        seeds = [rb(rng, rng.choice([0, 1, 8, 31, 32, 32, 32, 33])) for _ in range(ns)]
+        r = ctx.run("spl_find_pda_c", [seeds, rng.choice([ATOKEN, TOKEN, sol_addr(rng)])], "link-find-pda")
+        if r[1] and r[1][0] == "ok":
+            pdas.append(r[1][1])
+    for p in pdas[:ctx.n(25, 400)]:
+        ctx.run("spl_sol_decode_c", [p], "link-pda-as-address")
+        ctx.run("spl_get_ata_c", [p, mints[0]], "link-pda-as-wallet")
+    for _ in range(ctx.n(60, 1500)):
+        ctx.run("spl_get_ata_c", [rng.choice(wallets), rng.choice(mints)], "link-valid")
+    for _ in range(ctx.n(15, 300)):
+        ctx.run("spl_get_ata_prog_c", [rng.choice(wallets), rng.choice(mints), rng.choice([TOKEN, sol_addr(rng)])], "link-valid")
+    for b in bad:
+        ctx.run("spl_get_ata_c", [b, mints[0]], "link-bad-address", trivial=(b == ""))
+        ctx.run("spl_get_ata_prog_c", [wallets[0], mints[0], b], "link-bad-address", trivial=(b == ""))
+        ctx.run("spl_find_pda_c", [[b"x"], b], "link-bad-program", trivial=(b == ""))
+    # brainwallet: UTF-8 inside the model (cheap algorithms only)
+    for pw in ["correct horse battery staple", "", "p\u00e4ssw\u00f6rd", "\U0001f600 emoji", "\u0000", "\ud800", "\u20ac\u0800\uffff\U00010000"] + \
+            ["".join(chr(rng.choice([rng.randrange(32, 0x300), rng.randrange(0x800, 0xd800), rng.randrange(0xe000, 0x10000),
+                                     rng.randrange(0x10000, 0x110000)])) for _ in range(rng.randrange(12)))
+             for _ in range(ctx.n(25, 400))]:
+        ctx.run("brainwallet_c", [rng.choice([0, 2]), pw, [rng.randrange(2)]], "link-utf8")
+    ctx.run("brainwallet_c", [0, "s\u00e4lz", [2, b"salt", 7]], "link-utf8")
+
+
 def generate(ctx):
     gen_dec(ctx)
     gen_v1(ctx)
     gen_v2(ctx)
     gen_spl(ctx)
     gen_bw(ctx)
+    gen_link(ctx)
